@@ -225,7 +225,8 @@ def comp_hook(e, n, st, old):
 
 def call_hook(e, n, st, old):
     f = n.func
-    if isinstance(f, ast.Name) and f.id == "value_type" and "value" in st.env:
+    callee = st.env.get(f.id) if isinstance(f, ast.Name) else None
+    if isinstance(callee, T) and callee.s.startswith("(type_of ") and "value" in st.env:       # a call of the local that holds type(value), whatever it is called
         v = st.env["value"]
         if len(n.args) == 1 and isinstance(n.args[0], ast.Starred):      # value_type(*[...]): a namedtuple of the same class
             xs = e.ev(n.args[0].value, st, old)
